@@ -162,15 +162,15 @@ pub fn find_naf(num: &[u64]) -> Vec<i8> {
             .zip(ark_std::iter::once(z).chain(ark_std::iter::repeat(0)))
             .fold(0, |borrow, (a, b)| sbb(a, b, borrow));
     };
-    // Add a value `z` without carry propagation
-    let add_nocarry = |num: &mut [u64], z: u64| {
+    // Add a value `z`, returning the carry out of the most significant limb
+    let add_nocarry = |num: &mut [u64], z: u64| -> u64 {
         num.iter_mut()
             .zip(ark_std::iter::once(z).chain(ark_std::iter::repeat(0)))
-            .fold(0, |carry, (a, b)| adc(a, b, carry));
+            .fold(0, |carry, (a, b)| adc(a, b, carry))
     };
-    // Perform an in-place division of the number by 2
-    let div2 = |num: &mut [u64]| {
-        num.iter_mut().rev().fold(0, |carry, x| {
+    // Perform an in-place division of the number by 2, shifting `carry_in` into the top bit
+    let div2 = |num: &mut [u64], carry_in: u64| {
+        num.iter_mut().rev().fold(carry_in << 63, |carry, x| {
             let next_carry = *x << 63;
             *x = (*x >> 1) | carry;
             next_carry
@@ -180,12 +180,13 @@ pub fn find_naf(num: &[u64]) -> Vec<i8> {
     // Main loop for NAF computation
     while is_non_zero(&num) {
         // Determine the current digit of the NAF representation
+        let mut carry = 0;
         let z = if is_odd(&num) {
             let z = 2 - (num[0] % 4) as i8;
             if z >= 0 {
                 sub_noborrow(&mut num, z as u64);
             } else {
-                add_nocarry(&mut num, (-z) as u64);
+                carry = add_nocarry(&mut num, (-z) as u64);
             }
             z
         } else {
@@ -195,7 +196,7 @@ pub fn find_naf(num: &[u64]) -> Vec<i8> {
         // Append the digit to the result
         res.push(z);
         // Divide the number by 2 for the next iteration
-        div2(&mut num);
+        div2(&mut num, carry);
     }
 
     res
